@@ -23,9 +23,9 @@ def main(tier, seed, only=None):
     t0 = time.time()
     d = build.build("tsan")
     nseeds = 8 if tier == "quick" else 40
-    rounds = {"once": 200, "atomic": 30, "rng": 25, "churn": 25} if tier == "quick" else {"once": 1000, "atomic": 100, "rng": 60, "churn": 60}
+    rounds = {"once": 200, "atomic": 30, "rng": 25, "churn": 25, "onexit": 25} if tier == "quick" else {"once": 1000, "atomic": 100, "rng": 60, "churn": 60, "onexit": 100}
     jobs = []
-    for sc in ("once", "atomic", "rng", "churn"):
+    for sc in ("once", "atomic", "rng", "churn", "onexit"):
         if only and sc not in only:
             continue
         for t in ((2, 3, 4, 8) if sc == "churn" else (2, 3, 4, 8, 16)):
@@ -77,7 +77,7 @@ def main(tier, seed, only=None):
         paths.append((pth, what))
     ev = {"property_id": "C18", "tier": tier, "seed": seed, "level": "exploration",
           "coverage": {"evaluations": len(jobs), "distinct_nontrivial": len({(j[1], j[2], j[3]) for j in jobs if j[2] >= 2}),
-                       "rule": "each evaluation is one process: T in {2,3,4,8,16} threads released by a barrier run generated sequences (once: %d fresh triggers; atomic: %d00 increments/decrements/CAS per thread; rng: %d well-bracketed sessions of create/StepR/StepR2/rekey/isvalid/nested create/close per thread; churn: 4x as many minimal sessions, so that the shared state is destroyed and re-created while other threads enter) with seeded yields; "
+                       "rule": "each evaluation is one process: T in {2,3,4,8,16} threads released by a barrier run generated sequences (once: %d fresh triggers; atomic: %d00 increments/decrements/CAS per thread; rng: %d well-bracketed sessions of create/StepR/StepR2/rekey/isvalid/nested create/close per thread; onexit: 8x as many concurrent utilOnExit registrations, all of which must run at exit; churn: 4x as many minimal sessions, so that the shared state is destroyed and re-created while other threads enter) with seeded yields; "
                                "ThreadSanitizer (happens-before) + invariants are the oracle; every run has >= 2 overlapping threads, distinct by (scenario, T, seed)" % (rounds["once"], rounds["atomic"], rounds["rng"]),
                        "samples": samples, "generator_blocks_compared": blocks, "notes": notes, "exhaustive": False},
           "assumptions": ["ThreadSanitizer reports a race when both accesses occur in a run, without needing the losing interleaving; atomicity violations that are not data races need the bad schedule to happen - schedules are sampled, not enumerated",
